@@ -303,7 +303,10 @@ def check_cutoffs(cutoffs):
         raise ValueError(
             f"`cutoffs` must be a np.array or pd.Index, " f"but found: {type(cutoffs)}"
         )
-    assert np.issubdtype(cutoffs.dtype, np.integer)
+    if not np.issubdtype(cutoffs.dtype, np.integer):
+        raise ValueError(
+            f"`cutoffs` must be integers, but found dtype: {cutoffs.dtype}"
+        )
 
     if len(cutoffs) == 0:
         raise ValueError("Found empty `cutoff` array")
